@@ -100,8 +100,9 @@ def resolveAt (st : St) (at_ : Option Time) (d : String) : Option DidDoc :=
     | some v => if v.deact then none else some { assertion := v.assertion }
 
 def envOf (st : St) (op : Json) : Env :=
-  { now := 0
+  { now := jInt op "now"
     resolve := resolveAt st
+    storeFails := jBool op "storeFails"
     revoked := fun id => st.revoked.contains id
     statusList := fun url => match st.lists.find? (fun x => x.1 == url) with
       | some (_, purpose, revoked) => some { purpose := purpose, bit := fun i => some (revoked.contains i) }
@@ -117,6 +118,11 @@ def cryptoOf (facts : List (Key × Bytes × Sig)) (cps : List (Proof × String))
     digest := id
     jwtInput := fun raw => "jwt:" ++ raw
     sigOK := fun k m s => facts.contains (k, m, s) }
+
+def optBool (j : Json) (k : String) : Option Bool :=
+  match j.getObjVal? k with
+  | .ok (.bool b) => some b
+  | _ => none
 
 def showRes (r : Res Unit) : String :=
   match r with
@@ -155,6 +161,27 @@ def step (st : St) (j : Json) : St × List String :=
     -- the revocation's own verification is C11's subject; here the registered outcome is an input
     if jBool j "registered" then ({ st with revoked := jStr j "id" :: st.revoked }, ["revocation:ok"])
     else (st, ["revocation:" ++ "rejected"])
+  | "expect" =>
+    -- legs judged by an implementation-side oracle only: the op carries what the property demands
+    (st, [jStr j "expect"])
+  | "wallet-list" =>
+    -- sqlWallet.List on the issuer node: its own revocation store / managed status lists come with the op
+    let docs := jArr j "creds"
+    let all := docs.map sigFacts
+    let P := cryptoOf (all.foldr (fun x acc => x.1 ++ acc) []) (all.foldr (fun x acc => x.2 ++ acc) [])
+    let E : Env := { envOf st j with
+      revoked := fun id => (jStrs j "revoked").contains id
+      statusList := fun url => match (jArr j "lists").find? (fun l => jStr l "url" == url) with
+        | some l => some { purpose := jStr l "purpose", bit := fun i => some ((jNats l "revoked").contains i) }
+        | none => none }
+    let listed := walletList cfg P E (docs.map parseCred)
+    (st, ["wallet:" ++ String.intercalate "," ((listed.filterMap (·.id)).toArray.qsort (· < ·)).toList])
+  | "wallet-present" =>
+    let docs := jArr j "creds"
+    let all := docs.map sigFacts
+    let P := cryptoOf (all.foldr (fun x acc => x.1 ++ acc) []) (all.foldr (fun x acc => x.2 ++ acc) [])
+    let r := walletValidate cfg P (envOf st j) (jInt j "created") (docs.map parseCred)
+    (st, [match r with | .ok _ => "ok" | .err _ => "err:invalid-credential" | .panic _ => "panic"])
   | "issue" =>
     -- the real issuer.Issue vs the model's `issue` (signing is a toy function here: only the outcome class is compared)
     match j.getObjVal? "template" with
@@ -175,7 +202,8 @@ def step (st : St) (j : Json) : St × List String :=
     | .ok d =>
       let c := parseCred d
       let (facts, cps) := sigFacts d
-      let r := verify cfg (cryptoOf facts cps) (envOf st j) (jBool j "allowUntrusted") (jBool j "checkSig") (optInt j "at") c
+      let r := if jStr j "via" == "api" then apiVerifyVC cfg (cryptoOf facts cps) (envOf st j) (optBool j "option") c
+               else verify cfg (cryptoOf facts cps) (envOf st j) (jBool j "allowUntrusted") (jBool j "checkSig") (optInt j "at") c
       (st, [showRes r])
     | _ => (st, ["unparseable"])
   | "vp" =>
@@ -186,7 +214,8 @@ def step (st : St) (j : Json) : St × List String :=
       let all := (sigFacts d) :: (jArr d "vcs").map sigFacts
       let facts := all.foldr (fun x acc => x.1 ++ acc) []
       let cps := all.foldr (fun x acc => x.2 ++ acc) []
-      let r := verifyVP cfg (cryptoOf facts cps) (envOf st j) (jBool j "checkSig") (jBool j "allowUntrusted") (optInt j "at") vp
+      let r := if jStr j "via" == "api" then apiVerifyVP cfg (cryptoOf facts cps) (envOf st j) (optBool j "option") (optInt j "at") vp
+               else verifyVP cfg (cryptoOf facts cps) (envOf st j) (jBool j "checkSig") (jBool j "allowUntrusted") (optInt j "at") vp
       (st, [match r with | .ok _ => s!"ok n={vp.vcs.length}" | _ => showRes r])
     | _ => (st, ["unparseable"])
   | o => (st, ["bad-op:" ++ o])
